@@ -221,7 +221,8 @@ def mutation(draw, kind: str, info: dict, cur: Any):
         return v, lab
     if kind == "sfield":
         cur_l = list(cur) if isinstance(cur, list) else []
-        opts = [("sfield-too-few", cur_l[:-1]), ("sfield-too-many", cur_l + cur_l[:1]), ("sfield-not-a-list:dict", {"a": 1}),
+        opts = [("sfield-too-few", cur_l[:-1]), ("sfield-too-many", cur_l + cur_l[:1]), ("sfield-too-many", cur_l + cur_l[:1] + cur_l[:1]),
+                ("sfield-too-many", cur_l + cur_l[:1]), ("sfield-not-a-list:dict", {"a": 1}),
                 ("sfield-not-a-list:None", None), ("sfield-item-not-dict", [5] * len(cur_l)), ("sfield-not-a-list:str", "ab")]
         lab, v = pick(opts)
         return v, lab
